@@ -320,6 +320,11 @@ package vm
 //@   loop 3 invariant resourcesP(m) && (forall i9 in 0..len(m.Resources) :: !pendingBal(m.Resources[i9])) // C01
 //@   loop 2 invariant balTables(m) // C01
 //@   loop 3 invariant balTables(m) && has(m.Balances, accountAddress) // C01
+// C01: the balance table the script runs against is the store's: every entry this call writes is the balance the store
+// reported for that account and asset (zero for @world), negative balances included (an account in debt stays in debt)
+//@   ensures err == nil ==> (forall a8 machine.AccountAddress, t8 machine.Asset :: has(m.Balances, a8) && has(m.Balances[a8], t8) ==> (old(has(m.Balances, a8) && has(m.Balances[a8], t8)) && m.Balances[a8][t8] == old(m.Balances[a8][t8])) || (a8 == "world" && val(m.Balances[a8][t8]) == 0) || val(m.Balances[a8][t8]) == storeBal(a8, t8)) // C01
+//@   loop 2 invariant forall a8 machine.AccountAddress, t8 machine.Asset :: has(m.Balances, a8) && has(m.Balances[a8], t8) ==> (old(has(m.Balances, a8) && has(m.Balances[a8], t8)) && m.Balances[a8][t8] == old(m.Balances[a8][t8])) || (a8 == "world" && val(m.Balances[a8][t8]) == 0) || val(m.Balances[a8][t8]) == storeBal(a8, t8) // C01
+//@   loop 3 invariant forall a8 machine.AccountAddress, t8 machine.Asset :: has(m.Balances, a8) && has(m.Balances[a8], t8) ==> (old(has(m.Balances, a8) && has(m.Balances[a8], t8)) && m.Balances[a8][t8] == old(m.Balances[a8][t8])) || (a8 == "world" && val(m.Balances[a8][t8]) == 0) || val(m.Balances[a8][t8]) == storeBal(a8, t8) // C01
 //@   property C12 C01
 //@   alsofor C08
 
